@@ -26,6 +26,11 @@ guard dimension (a "near miss") is what a weakened guard lets through.  Three fa
                an operand replaced by another visible value of the same type, two operands swapped, an
                operation duplicated in place or copied to another point where its operands are visible.
                Mutants are kept only if they are valid inputs (`input_ok` + SSA dominance, Lean `ssa_dom`).
+* `OrderGen` / `reorder` — the ORDER of the operations of a block: xDSL's parser and verifier accept a user before
+               its producer; programs of the generators above and corpus modules with blocks permuted / reversed /
+               one operation (of a kind the pass under test rewrites) moved to the first or the last movable
+               position.  What is guarded here is "one walk suffices" and "the rewritten operation has a predecessor /
+               a successor in its block".
 
 All randomness comes from the `random.Random` handed in.
 """
@@ -316,6 +321,7 @@ class TypedGen:
         self.n = 0
         self.ext: set[str] = set()
         self.exprs: list[tuple[str, list[tuple[str, str]], str]] = []   # (format, [(operand, type)], result type)
+        self.graph = False   # program_graph: no function around the code, observers are test.op only
 
     def fresh(self, p: str = "v") -> str:
         self.n += 1
@@ -346,7 +352,7 @@ class TypedGen:
         return self.pick(pool, "i1", L, ind, 0.0) if pool.get("i1") else self.const(pool, "i1", L, ind)
 
     def observe(self, v: str, t: str, L: list[str], ind: str) -> None:
-        if self.rng.random() < 0.5:
+        if not self.graph and self.rng.random() < 0.5:
             self.ext.add(t)
             L.append(f"{ind}func.call @ext_{t}({v}) : ({t}) -> ()")
         else:
@@ -562,6 +568,217 @@ class TypedGen:
             out.append(f"func.func private @ext_{t}({t}) -> ()")
         out.append("}\n")
         return "\n".join(out)
+
+
+    def program_graph(self) -> str:
+        """the same statements directly in the body of a builtin.module (a graph region: its operations carry no
+        order), half of the time in a module nested in the top-level one; the free values come from one test.op"""
+        rng = self.rng
+        self.n = 0
+        self.ext = set()
+        self.exprs = []
+        self.graph = True
+        try:
+            ats = ["i1", "i1"] + [rng.choice(INT_T + FLOAT_T) for _ in range(rng.randint(2, 5))]
+            args = [f"%a{i}" for i in range(len(ats))]
+            pool: dict[str, list[str]] = {}
+            for a, t in zip(args, ats):
+                pool.setdefault(t, []).append(a)
+            L: list[str] = []
+            for _ in range(rng.randint(3, 10)):
+                self.stmt(pool, L, "  ", 0)
+            self.flush(pool, {t: [a for a in args if a in vs] for t, vs in pool.items()}, L, 0, "  ", 0.9)
+        finally:
+            self.graph = False
+        head = f'  {", ".join(args)} = "test.op"() : () -> ({", ".join(ats)})'
+        if rng.random() < 0.5:
+            return "\n".join(["builtin.module {", "builtin.module {", head, *L, "}", "}\n"])
+        return "\n".join(["builtin.module {", head, *L, "}\n"])
+
+
+# ---------------------------------------------------------------------------------------------
+# OrderGen: the programs of the other generators with the operations of their blocks in another order
+# ---------------------------------------------------------------------------------------------
+
+class OrderGen:
+    """xDSL keeps the operations of a block in a doubly linked list and its verifier does not look at the order in
+    which definitions and uses appear in it: the parser resolves forward references, `verify()` accepts a user that
+    precedes its producer (in the body of a builtin.module — a graph region — this is legal MLIR as well).  Code that
+    walks a block once in one direction, or that edits the list around the operation it rewrites, is only exercised
+    by the corpus in definition-before-use order and with the rewritten operation somewhere in the middle.  This
+    family takes a program of CfgGen / TypedGen (function bodies, nested scf regions) or TypedGen.program_graph
+    (module bodies, also nested) and hands it to `reorder` (below), which permutes / reverses the operations of
+    blocks or moves one operation to the first / last movable position.  `program()` returns the base program; the
+    re-ordering is an IR-level edit applied where the module is validated (c17._validate)."""
+
+    def __init__(self, rng: random.Random):
+        self.rng = rng
+        self.cfg = CfgGen(rng)
+        self.typed = TypedGen(rng)
+
+    def program(self) -> str:
+        r = self.rng.random()
+        if r < 0.4:
+            return self.typed.program()
+        if r < 0.7:
+            return self.typed.program_graph()
+        return self.cfg.program()
+
+
+ORDER_MODES = ["first", "before-last", "reverse", "permute", "permute-all"]
+
+
+def reorder(text: str, seed: int, parse: Any, modes: list[str] | None = None, kinds: list[str] | None = None,
+            n_edits: int = 1, pick: int | None = None, strict: bool = False) -> tuple[str | None, list[str]]:
+    """re-order operations inside blocks of a fresh parse of `text` (the last operation of a block stays where it is
+    unless the block is the body of a builtin.module, which has no terminator).  modes: `first` = one operation
+    (of one of `kinds`, the operation kinds the pass under test rewrites, when given and present) becomes the first
+    operation of its block; `before-last` = it becomes the last movable one; `reverse` / `permute` = the movable
+    operations of one block are reversed / shuffled; `permute-all` = those of every block are shuffled.  With
+    `pick` = k the moved operation is the k-th candidate of an enumeration that depends on `seed` only (operations of
+    `kinds` first, among them first those none of whose operands is produced by an operation of `kinds`: the pass can
+    rewrite them without rewriting anything else before); no edit if there are not that many candidates.
+    strict=True (variants of corpus modules): only the body of a builtin.module — a graph region — is re-ordered
+    freely; in every other block the new order keeps each definition before its users (also those nested in the regions
+    of a later operation), so the result is as dominance-valid as the module it was made from: `first` / `before-last`
+    move the operation to the earliest / latest such position, `permute` / `reverse` produce a random / the most
+    reversed topological order.  Returns
+    (generic text | None, edits done); whether the result is an input xDSL accepts is decided by the caller
+    (`input_ok`: parser, verifier, round trip)."""
+    from xdsl.dialects.builtin import ModuleOp
+    from xdsl.printer import Printer
+
+    rng = random.Random(seed)
+    try:
+        m = parse(text)
+    except Exception:  # noqa: BLE001
+        return None, []
+    done: list[str] = []
+
+    def movable(b: Any) -> list[Any]:
+        ops = list(b.ops)
+        par = b.parent.parent if b.parent is not None else None
+        return ops if isinstance(par, ModuleOp) else ops[:-1]
+
+    def is_graph(b: Any) -> bool:
+        return isinstance(b.parent.parent if b.parent is not None else None, ModuleOp)
+
+    def deps(b: Any, ops: list[Any]) -> dict[int, set[int]]:
+        """id(op) -> ids of the operations of `ops` (one block) whose results it, or an operation nested in it, uses"""
+        here = {id(o) for o in ops}
+        out: dict[int, set[int]] = {}
+        for o in ops:
+            d: set[int] = set()
+            for x in o.walk():
+                for v in x.operands:
+                    w = getattr(v, "owner", None)
+                    if id(w) in here and w is not o:
+                        d.add(id(w))
+            out[id(o)] = d
+        return out
+
+    def topo(b: Any, ops: list[Any], prefer: Any) -> list[Any]:
+        """a topological order of `ops` w.r.t. deps; `prefer(ready list)` chooses the next operation"""
+        d = deps(b, ops)
+        placed: set[int] = set()
+        rest = list(ops)
+        out: list[Any] = []
+        while rest:
+            ready = [o for o in rest if d[id(o)] <= placed]
+            if not ready:      # a dependence cycle (the module was not in dominance order): keep what is left as it is
+                out.extend(rest)
+                break
+            o = prefer(ready)
+            out.append(o)
+            placed.add(id(o))
+            rest = [x for x in rest if x is not o]
+        return out
+
+    def place(b: Any, o: Any, mode: str) -> list[Any]:
+        ops = movable(b)
+        others = [x for x in ops if x is not o]
+        if not strict or is_graph(b):
+            return [o, *others] if mode == "first" else [*others, o]
+        d = deps(b, ops)
+        if mode == "first":
+            last_dep = max([i for i, x in enumerate(others) if id(x) in d[id(o)]], default=-1)
+            return [*others[:last_dep + 1], o, *others[last_dep + 1:]]
+        first_user = min([i for i, x in enumerate(others) if id(o) in d[id(x)]], default=len(others))
+        return [*others[:first_user], o, *others[first_user:]]
+
+    def rebuild(b: Any, new: list[Any]) -> None:
+        old = movable(b)
+        anchor = None if len(old) == len(list(b.ops)) else b.last_op
+        for o in old:
+            o.detach()
+        if anchor is None:
+            b.add_ops(new)
+        else:
+            b.insert_ops_before(new, anchor)
+
+    try:
+        for _ in range(n_edits * 3):
+            if len(done) >= n_edits:
+                break
+            mode = rng.choice(modes or ORDER_MODES)
+            blocks = [b for o in m.walk() for r in o.regions for b in r.blocks if len(movable(b)) >= 2]
+            if not blocks:
+                break
+            if mode == "permute-all":
+                for b in blocks:
+                    new = movable(b)
+                    if strict and not is_graph(b):
+                        new = topo(b, new, rng.choice)
+                    else:
+                        rng.shuffle(new)
+                    rebuild(b, new)
+                done.append("order:permute-all")
+                continue
+            if mode in ("first", "before-last"):
+                cands = [(b, o) for b in blocks for o in movable(b)]
+                hot = [(b, o) for b, o in cands if kinds and o.name in kinds]
+                pool = [(b, o) for b, o in (hot or cands)
+                        if any(x is not y for x, y in zip(place(b, o, mode), movable(b)))]
+                if not pool:
+                    continue
+                if pick is None:
+                    b, o = rng.choice(pool)
+                else:
+                    rng.shuffle(pool)
+                    pool.sort(key=lambda bo: any(getattr(v.owner, "name", None) in (kinds or ()) for v in bo[1].operands))
+                    if pick >= len(pool):
+                        break
+                    b, o = pool[pick]
+                rebuild(b, place(b, o, mode))
+                done.append(f"order:{mode}:{o.name}" if hot else f"order:{mode}")
+                continue
+            big = [b for b in blocks if len(movable(b)) >= 3] or blocks
+            b = rng.choice(big)
+            new = movable(b)
+            first = list(new)
+            if strict and not is_graph(b):
+                new = topo(b, new, (lambda ready: ready[-1]) if mode == "reverse" else rng.choice)
+            elif mode == "reverse":
+                new.reverse()
+            else:
+                for _k in range(4):
+                    rng.shuffle(new)
+                    if any(x is not y for x, y in zip(first, new)):
+                        break
+            if all(x is y for x, y in zip(first, new)):
+                continue
+            rebuild(b, new)
+            done.append(f"order:{mode}")
+    except Exception:  # noqa: BLE001
+        return None, done
+    if not done:
+        return None, done
+    buf = io.StringIO()
+    try:
+        Printer(stream=buf, print_generic_format=True).print_op(m)
+    except Exception:  # noqa: BLE001
+        return None, done
+    return buf.getvalue(), done
 
 
 # ---------------------------------------------------------------------------------------------
